@@ -37,6 +37,11 @@ type fdesc struct {
 	rdSeen     []string
 	rdDirty    bool
 	rdUniverse map[string]bool
+	// rdTouched: names created, removed or renamed in the directory since the pass began; rdTouchedAll:
+	// a change whose names were not recorded
+	rdTouched    map[string]bool
+	rdTouchedAll bool
+	rdInitial    map[string]bool // names in the directory when the pass began
 	rdLastLo   uint64 // cookies in [rdLastLo, rdLastHi] are guaranteed acceptable
 	rdLastHi   uint64
 	rdStarted  bool
@@ -135,8 +140,15 @@ func (m *model) markDirChanged(d *inode, names ...string) {
 	for _, f := range m.fds {
 		if f.ino == d && f.rdStarted {
 			f.rdDirty = true
+			if len(names) == 0 {
+				f.rdTouchedAll = true
+			}
 			for _, n := range names {
 				f.rdUniverse[n] = true
+				if f.rdTouched == nil {
+					f.rdTouched = map[string]bool{}
+				}
+				f.rdTouched[n] = true
 			}
 		}
 	}
